@@ -68,6 +68,9 @@ var repoRoot = func() string {
 	return "/repo"
 }()
 
+// corrCap > 0 limits the number of generated cases kept (the first corrCap, then every 7th)
+var corrCap = 0
+
 var modelrunPath = verifRoot + "/ocaml/build/modelrun"
 
 // runModel evaluates the extracted model on the given case lines (sharded over processes).
@@ -156,7 +159,11 @@ func safeImpl(m *Model, c Case) (out []int64) {
 func RunCorr(m *Model, r *Rng, tier string, corpus []Case) (*CorrResult, error) {
 	var cases []Case
 	cases = append(cases, corpus...)
-	m.Gen(r, tier, func(c Case) { cases = append(cases, c) })
+	m.Gen(r, tier, func(c Case) {
+		if corrCap == 0 || len(cases) < corrCap || len(cases)%7 == 0 && len(cases) < 4*corrCap {
+			cases = append(cases, c)
+		}
+	})
 	res := &CorrResult{Model: m.Name, Histogram: map[string]int{}, Mismatches: []Mismatch{}, Samples: []string{}}
 	lines := make([]string, len(cases))
 	seen := map[string]bool{}
